@@ -24,9 +24,11 @@ type impFn struct {
 	bigUninit  map[string]bool // … whose contents have not been set yet: may not be read
 	bigScratch map[string]bool // … declared by `x := pool.BigInt.Get()` (checkBigScratch: never re-assigned or aliased): fresh in its whole scope
 	bigDead    map[string]bool // … that have been given back to the pool (pool.BigInt.Put): may not be used any more
+	bigLocal   map[string]bool // `var x big.Int` locals (values owned by the function)
 	evRecv     bool            // the "receiver" is the event list of a callback parameter
 	fuels      []string        // explicit fuel parameters (loops without a recognised counting pattern)
 	usesNumCPU bool
+	inLoopNow  bool   // the statement being translated is inside a loop body
 	recv       string // receiver variable ("" = none); passed and returned by value
 	results    []*ity
 	scopes     []map[string]*ity
@@ -65,7 +67,7 @@ var leanReserved = map[string]bool{"end": true, "from": true, "at": true, "show"
 	"Bytes": true, "zeroF": true, "setBigIntF": true, "modulus": true, "default": true, "makeSlice": true, "sliceOf": true, "bigCmp": true, "bigMod": true, "bigSetBytes": true}
 
 func lname(n string) string {
-	if leanReserved[n] {
+	if leanReserved[n] || impExtraReserved[n] {
 		return n + "'"
 	}
 	return n
@@ -93,6 +95,9 @@ func (f *impFn) declare(at ast.Node, n string, t *ity) {
 	}
 	if f.lookup(n) != nil {
 		f.p.die(at, "declaration of %s shadows / repeats a live variable (outside the subset)", n)
+	}
+	if f.p.tg.digest && digestReserved[n] {
+		f.p.die(at, "the variable %s has the name of a parameter of the generated defs", n)
 	}
 	f.scopes[len(f.scopes)-1][n] = t
 	for _, d := range f.declOrd {
@@ -166,6 +171,11 @@ func nilTests(e ast.Expr, op token.Token, cmp token.Token, out *[]string) {
 
 func (f *impFn) expr(e ast.Expr, want *ity, c *ictx) (string, *ity) {
 	p := f.p
+	if p.tg.digest {
+		if s, t, ok := f.digestExpr(e, want, c); ok {
+			return s, t
+		}
+	}
 	switch v := e.(type) {
 	case *ast.ParenExpr:
 		return f.expr(v.X, want, c)
@@ -234,6 +244,10 @@ func (f *impFn) expr(e ast.Expr, want *ity, c *ictx) (string, *ity) {
 		p.die(e, "no field %s", v.Sel.Name)
 	case *ast.IndexExpr:
 		xs, xt := f.expr(v.X, nil, c)
+		if xt.k == "array" && xt.elem.k == "grp" {
+			_, get, _ := f.grpLval(v, c)
+			return get, xt.elem
+		}
 		if xt.k != "slice" {
 			p.die(e, "index expression on %v (map reads only as `v, ok := m[k]`)", xt)
 		}
@@ -403,8 +417,22 @@ func (f *impFn) binary(v *ast.BinaryExpr, want *ity, c *ictx) (string, *ity) {
 			p.die(v, "^ on %v, %v (only bytes)", xt, yt)
 		}
 		return parenImp(xs) + " ^^^ " + parenImp(ys), tyByte
+	case token.AND, token.OR:
+		xs, xt, ys, yt := f.operands(v, want, c)
+		if !xt.eq(yt) || !(xt.k == "byte" || xt.k == "uint64") {
+			p.die(v, "%s on %v, %v (only bytes / uint64)", v.Op, xt, yt)
+		}
+		return parenImp(xs) + map[token.Token]string{token.AND: " &&& ", token.OR: " ||| "}[v.Op] + parenImp(ys), xt
 	case token.SHR:
 		xs, xt := f.expr(v.X, tyInt, c)
+		if xt.k == "byte" || xt.k == "uint64" {
+			// x >> n with a signed count n (a negative count panics in Go: not modelled); the value is computed on the naturals
+			ns, nt := f.expr(v.Y, tyInt, c)
+			if nt.k != "int" {
+				p.die(v, ">> count of type %v", nt)
+			}
+			return map[string]string{"byte": "shrByte ", "uint64": "shr64 "}[xt.k] + parenImp(xs) + " " + parenImp(ns), xt
+		}
 		n := litInt(v.Y)
 		if xt.k == "int64" && n != nil { // arithmetic shift of an int64: floor division by 2^n, no wrap-around possible
 			return "Int.shiftRight " + parenImp(xs) + " " + n.String(), xt
@@ -439,6 +467,9 @@ func (f *impFn) binary(v *ast.BinaryExpr, want *ity, c *ictx) (string, *ity) {
 		}
 		if xt.k == "int64" && yt.k == "int64" && (v.Op == token.ADD || v.Op == token.SUB) { // int64: wraps around
 			return "wrapS64 (" + parenImp(xs) + " " + v.Op.String() + " " + parenImp(ys) + ")", xt
+		}
+		if xt.k == "byte" && yt.k == "byte" && (v.Op == token.SUB || v.Op == token.ADD) { // UInt8 arithmetic wraps, as in Go
+			return parenImp(xs) + " " + v.Op.String() + " " + parenImp(ys), tyByte
 		}
 		if xt.k != "int" || yt.k != "int" {
 			p.die(v, "%s on %v, %v", v.Op, xt, yt)
@@ -539,7 +570,11 @@ func (f *impFn) call(v *ast.CallExpr, want *ity, c *ictx) (string, *ity) {
 				case se.Sel.Name == "BitLen" && len(v.Args) == 0:
 					return "bigBitLen " + xs, tyInt
 				case se.Sel.Name == "Cmp" && len(v.Args) == 1 && p.tg.mode == "h2f":
-					return "bigCmp " + xs + " " + parenImp(f.bigArg(v.Args[0], c)), tyInt
+					return "bigCmp " + xs + " " + parenImp(f.h2fBigArg(v.Args[0], c)), tyInt
+				case se.Sel.Name == "Bytes" && len(v.Args) == 0 && p.tg.grp != "":
+					return "bigBytes " + xs, tyBytes // big-endian bytes of |x|, no leading zero ([] for 0)
+				case se.Sel.Name == "Bits" && len(v.Args) == 0 && p.tg.grp != "":
+					return "bigWords " + xs, &ity{k: "slice", elem: tyU64} // little-endian 64-bit words of |x|, normalised (64-bit platform)
 				case se.Sel.Name == "Bit" && len(v.Args) == 1:
 					is, it := f.expr(v.Args[0], tyInt, c)
 					if it.k != "int" {
